@@ -84,3 +84,7 @@ CORPUS += [
     M("n-smarthome-salt-hoisted", C, "            login_hash = login_id + m1.hexdigest() + self._login_key\n            m2 = hashlib.sha256(login_hash.encode(\"ASCII\"))\n\n            return m2.hexdigest()",
       "            salt = self._login_key\n            login_hash = login_id + m1.hexdigest() + salt\n            m2 = hashlib.sha256(login_hash.encode(\"ASCII\"))\n\n            return m2.hexdigest()", "S"),
 ]
+# round 7 (C19.t6): every network failure of Device.authenticate is an AuthenticationError (both byte orders get tried)
+CORPUS += [
+    M("device-authenticate-timeout-escapes", "msmart/base_device.py", "        except (ProtocolError, TimeoutError) as e:\n            raise AuthenticationError(e) from e", "        except ProtocolError as e:\n            raise AuthenticationError(e) from e"),
+]
